@@ -242,7 +242,7 @@ def _get_unused_imports_split(
     for node in core.walk(ast_tree, (ast.Import, ast.ImportFrom)):
         for alias in node.names:
             used_name = alias.name if alias.asname is None else alias.asname
-            if used_name in unused_imports:
+            if used_name in unused_imports and used_name != "*":
                 import_unused_aliases[node].add(alias)
 
     partially_unused_imports = set()
